@@ -26,7 +26,7 @@ CONFIGS_STANDIN = ["selector-opt", "selector-noopt", "cplex-noopt", "cplex-noopt
 
 
 def budget(tier):
-    return 700 if tier == "quick" else 6000
+    return 700 if tier == "quick" else 3000
 
 
 def gen(rng, index, tier):
@@ -35,6 +35,9 @@ def gen(rng, index, tier):
     raw, meta = lib.gen_dataset(rng, nmax=nmax, mmax=5, family=fam)
     standin = rng.random() < 0.5
     config = rng.choice(CONFIGS_STANDIN if standin else CONFIGS_ABSENT)
+    if config == "cplex-noopt-all" and len(lib.dataset_elems(raw)) > (4 if tier == "quick" else 5):
+        # all optima through the stand-in = one CBC call per optimum; cycles under cheap-tie schemes have hundreds of them
+        raw, meta = lib.gen_dataset(rng, nmax=4 if tier == "quick" else 5, mmax=5, family=fam)
     case = {"dataset": raw, "scheme": partcommon.sparse_scheme(rng, meta["family"]), "meta": meta, "config": config}
     if standin:
         case["cplex"] = "standin"
